@@ -40,7 +40,7 @@ pub fn plan() -> Plan {
     let profiles = vec![p, hostile, single, resume];
     Plan {
         profiles,
-        directed: vec![],
+        directed: vec![("retained-replay-into-full-window", |h| h.retained_replay_into_full_window())],
         quick_histories: 1200,
         thorough_histories: 160_000,
         s5: None,
